@@ -2,6 +2,7 @@ package c13
 
 import (
 	"fmt"
+	"strconv"
 	"strings"
 	"unicode/utf8"
 
@@ -448,13 +449,46 @@ type eg struct {
 	noCalls  bool
 	noBigInt bool
 	noRegex  bool
+	nonzero  bool // no literal has the zero value of its type ("", 0, 0.0, 0s)
+	badVars  map[string]string // var name -> known defect class: not referenced inside lambdas
 	count    func(class string)
 }
 
 const (
 	classK1 = "K1 JSON of a lambda: function call (the function name is not serialised)"
 	classK4 = "K4 JSON of a lambda: integer literal beyond 2^53 (decoded through float64)"
+	classK5 = "K5 format of an AST built without the parser: string ending in a backslash (needs triple quotes, StringNode.TripleQuotes unset)"
+	classK2 = "K2 format of an AST built without the parser: regex literal (RegexNode.Literal unset prints //)"
+	classT3 = "T3 pipeline/tick: a lambda var referenced inside a lambda is rendered as a nested 'lambda:' (unparseable)"
+	classT1 = "T1 pipeline/tick drops arguments that have the zero value of their type (and a node or property whose arguments are all zero)"
 )
+
+func (g *eg) zero(e *Expr, repl string) *Expr {
+	if !g.nonzero {
+		return e
+	}
+	z := false
+	switch e.K {
+	case "int":
+		v, _, err := intValue(e.V)
+		z = err == nil && v == 0
+	case "flt":
+		f, err := strconv.ParseFloat(e.V, 64)
+		z = err == nil && f == 0
+	case "dur":
+		d, err := durValue(e.V)
+		z = err == nil && d == 0
+	case "str":
+		z = e.V == ""
+	}
+	if z {
+		if g.count != nil {
+			g.count(classT1)
+		}
+		e.V = repl
+	}
+	return e
+}
 
 func (g *eg) filter(e *Expr) *Expr {
 	if g.noCalls && e.K == "call" {
@@ -488,7 +522,14 @@ func (g *eg) paren(e *Expr) *Expr {
 func (g *eg) pickVar(typ string) *Expr {
 	vs := g.vars[typ]
 	if len(vs) > 0 && rapid.IntRange(0, 2).Draw(g.t, "useVar") == 0 {
-		return &Expr{K: "id", V: rapid.SampledFrom(vs).Draw(g.t, "var")}
+		v := rapid.SampledFrom(vs).Draw(g.t, "var")
+		if class, bad := g.badVars[v]; bad {
+			if g.count != nil {
+				g.count(class)
+			}
+			return nil
+		}
+		return &Expr{K: "id", V: v}
 	}
 	return nil
 }
@@ -501,14 +542,22 @@ func (g *eg) intLit() *Expr {
 		}
 		e.V = "42"
 	}
-	return e
+	return g.zero(e, "7")
 }
-func (g *eg) fltLit() *Expr { return &Expr{K: "flt", V: rapid.SampledFrom(fltForms).Draw(g.t, "flt")} }
+func (g *eg) fltLit() *Expr {
+	return g.zero(&Expr{K: "flt", V: rapid.SampledFrom(fltForms).Draw(g.t, "flt")}, "0.25")
+}
 func (g *eg) durLit() *Expr {
-	return &Expr{K: "dur", V: rapid.SampledFrom(durNums).Draw(g.t, "durN") + rapid.SampledFrom(durUnits).Draw(g.t, "durU")}
+	return g.zero(&Expr{K: "dur", V: rapid.SampledFrom(durNums).Draw(g.t, "durN") + rapid.SampledFrom(durUnits).Draw(g.t, "durU")}, "3m")
 }
 func (g *eg) strLit() *Expr {
 	v := rapid.SampledFrom(strPool).Draw(g.t, "str")
+	if g.nonzero && strings.HasSuffix(v, `\`) {
+		if g.count != nil {
+			g.count(classK5)
+		}
+		v += "x"
+	}
 	tq := rapid.IntRange(0, 3).Draw(g.t, "tq") == 0
 	if !canSingle(v) {
 		tq = true
@@ -519,7 +568,7 @@ func (g *eg) strLit() *Expr {
 	if !tq && !canSingle(v) {
 		v = v + "x"
 	}
-	return &Expr{K: "str", V: v, TQ: tq}
+	return g.zero(&Expr{K: "str", V: v, TQ: tq}, "nz")
 }
 func (g *eg) ref() *Expr   { return &Expr{K: "ref", V: rapid.SampledFrom(refPool).Draw(g.t, "ref")} }
 // regex: the empty pattern can only be written directly after =~ !~ = (elsewhere "//" starts a comment)
